@@ -119,43 +119,50 @@ fn enc16(v: u32) -> u16 {
 
 /// update_fat on FAT16 (1 FAT): exactly the addressed entry changes, every
 /// other byte of the FAT sector is preserved, only the FAT sector is written.
-#[kani::proof]
-#[kani::unwind(12)]
-fn c04_update_fat16_frame() {
+/// The cluster is concrete per instance (positions concrete, contents symbolic).
+fn update_fat16_frame(c: u32) {
     let mut blocks: [Block; G16A_N] = zero_blocks();
     blocks[G16A_FAT as usize] = any_block();
     let pre = blocks[G16A_FAT as usize].clone();
     let mut vol = g16a();
     let mut cache = BlockCache::new(SymDisk::new(0, blocks));
-    let c: u32 = kani::any();
-    kani::assume(c >= 2 && c < 8);
     let v: u32 = kani::any();
     let r = vol.update_fat(&mut cache, ClusterId(c), ClusterId(v));
     assert!(r.is_ok(), "fat16.update: failed without a device error");
     let dev = vk_bd::dev(&cache);
     let post = dev.block(G16A_FAT);
     assert!(f16(&post, c) == enc16(v), "fat16.update: entry does not hold the new value");
-    let p: usize = kani::any();
-    kani::assume(p < 512 && p / 2 != c as usize);
-    assert!(post.contents[p] == pre.contents[p], "fat.frame: update_fat changed a byte outside the addressed entry");
+    let mut p = 0;
+    while p < 512 {
+        if p / 2 != c as usize {
+            assert!(post.contents[p] == pre.contents[p], "fat.frame: update_fat changed a byte outside the addressed entry");
+        }
+        p += 1;
+    }
     assert!(dev.nwrites.get() == 1 && dev.wrote(G16A_FAT), "fat.region: update_fat wrote something other than the FAT sector");
-    kani::cover!(c == 7 && v == 0xFFFF_FFFF);
+    kani::cover!(v == 0xFFFF_FFFF);
     kani::cover!(v == 0);
+}
+#[kani::proof]
+#[kani::unwind(514)]
+fn c04_update_fat16_frame_c3() {
+    update_fat16_frame(3);
+}
+#[kani::proof]
+#[kani::unwind(514)]
+fn c04_update_fat16_frame_c255() {
+    update_fat16_frame(255);
 }
 
 /// update_fat on FAT32 (2 FATs): low 28 bits replaced, high nibble preserved,
 /// other bytes preserved, both FAT copies written and identical.
-#[kani::proof]
-#[kani::unwind(12)]
-fn c16_update_fat32_both_copies() {
+fn update_fat32_copies(c: u32) {
     let mut blocks: [Block; G32A_N] = zero_blocks();
     blocks[G32A_FAT1 as usize] = any_block();
-    blocks[G32A_FAT2 as usize] = blocks[G32A_FAT1 as usize].clone();
+    blocks[G32A_FAT2 as usize] = any_block(); // the copies may even differ beforehand
     let pre = blocks[G32A_FAT1 as usize].clone();
     let mut vol = g32a();
     let mut cache = BlockCache::new(SymDisk::new(0, blocks));
-    let c: u32 = kani::any();
-    kani::assume(c >= 2 && c < 8);
     let v: u32 = kani::any();
     let r = vol.update_fat(&mut cache, ClusterId(c), ClusterId(v));
     assert!(r.is_ok(), "fat32.update: failed without a device error");
@@ -169,14 +176,26 @@ fn c16_update_fat32_both_copies() {
     };
     assert!(f32(&post, c) & 0x0FFF_FFFF == want, "fat32.update: entry does not hold the new value");
     assert!(f32(&post, c) & 0xF000_0000 == f32(&pre, c) & 0xF000_0000, "fat32.update: reserved high nibble not preserved");
-    let p: usize = kani::any();
-    kani::assume(p < 512);
-    if p / 4 != c as usize {
-        assert!(post.contents[p] == pre.contents[p], "fat.frame: update_fat changed a byte outside the addressed entry");
+    let mut p = 0;
+    while p < 512 {
+        if p / 4 != c as usize {
+            assert!(post.contents[p] == pre.contents[p], "fat.frame: update_fat changed a byte outside the addressed entry");
+        }
+        assert!(post2.contents[p] == post.contents[p], "fat.copies: second FAT differs from the first after update");
+        p += 1;
     }
-    assert!(post2.contents[p] == post.contents[p], "fat.copies: second FAT differs from the first after update");
     assert!(dev.nwrites.get() == 2 && dev.wrote(G32A_FAT1) && dev.wrote(G32A_FAT2), "fat.region: update_fat must write exactly the two FAT sectors");
-    kani::cover!(c == 5 && v == 0xFFFF_FFFF && f32(&pre, c) >> 28 == 0xA);
+    kani::cover!(v == 0xFFFF_FFFF && f32(&pre, c) >> 28 == 0xA);
+}
+#[kani::proof]
+#[kani::unwind(514)]
+fn c16_update_fat32_both_copies_c5() {
+    update_fat32_copies(5);
+}
+#[kani::proof]
+#[kani::unwind(514)]
+fn c16_update_fat32_both_copies_c127() {
+    update_fat32_copies(127);
 }
 
 // ------------------------------------------------- find_next_free_cluster ---
@@ -456,3 +475,601 @@ fn c04_cluster_to_block_in_data_area() {
     kani::cover!(fat32 && bpc == 1);
 }
 
+
+// ============================================================ directories ===
+// Specification-side reader of a directory made of 512-byte blocks of 32-byte
+// slots (FAT specification section 6): byte 0 == 0x00 ends the directory,
+// 0xE5 marks a deleted slot, everything else is a live slot.
+
+/// number of live slots before the end marker in `b[..nblk]`, and (via `k`) the
+/// position of the k-th live slot
+fn spec_kth_live(blks: &[&Block], k: usize) -> (usize, Option<(usize, usize)>) {
+    let mut n = 0;
+    let mut hit = None;
+    let mut ended = false;
+    let mut bi = 0;
+    while bi < blks.len() {
+        let mut s = 0;
+        while s < 16 {
+            let f = blks[bi].contents[32 * s];
+            if !ended {
+                if f == 0x00 {
+                    ended = true;
+                } else if f != 0xE5 {
+                    if n == k {
+                        hit = Some((bi, s));
+                    }
+                    n += 1;
+                }
+            }
+            s += 1;
+        }
+        bi += 1;
+    }
+    (n, hit)
+}
+
+/// first slot (before the end marker) whose 11 name bytes equal `name`
+fn spec_find(blks: &[&Block], name: &[u8; 11]) -> Option<(usize, usize)> {
+    let mut hit = None;
+    let mut ended = false;
+    let mut bi = 0;
+    while bi < blks.len() {
+        let mut s = 0;
+        while s < 16 {
+            let o = 32 * s;
+            let c = &blks[bi].contents;
+            if !ended && hit.is_none() {
+                if c[o] == 0x00 {
+                    ended = true;
+                } else {
+                    let mut eq = true;
+                    let mut i = 0;
+                    while i < 11 {
+                        if c[o + i] != name[i] {
+                            eq = false;
+                        }
+                        i += 1;
+                    }
+                    if eq {
+                        hit = Some((bi, s));
+                    }
+                }
+            }
+            s += 1;
+        }
+        bi += 1;
+    }
+    hit
+}
+
+fn slot_matches_entry(c: &[u8; 512], s: usize, e: &DirEntry, fat32: bool) -> bool {
+    let o = 32 * s;
+    let mut ok = true;
+    let mut i = 0;
+    while i < 11 {
+        if e.name.contents[i] != c[o + i] {
+            ok = false;
+        }
+        i += 1;
+    }
+    let lo = le16(c, o + 26) as u32;
+    let hi = le16(c, o + 20) as u32;
+    let mut cl = if fat32 { (hi << 16) | lo } else { lo };
+    if cl == 0 && c[o + 11] & 0x10 != 0 {
+        cl = ClusterId::ROOT_DIR.0; // cluster 0 in a directory entry designates the root
+    }
+    let mt = crate::filesystem::Timestamp::from_fat(le16(c, o + 24), le16(c, o + 22));
+    let ct = crate::filesystem::Timestamp::from_fat(le16(c, o + 16), le16(c, o + 14));
+    ok && e.attributes.0 == c[o + 11] && e.cluster.0 == cl && e.size == le32(c, o + 28) && e.entry_offset == o as u32 && e.mtime == mt && e.ctime == ct
+}
+
+fn root16_dirinfo() -> DirectoryInfo {
+    DirectoryInfo { raw_directory: crate::filesystem::RawDirectory(crate::filesystem::Handle(7)), raw_volume: crate::RawVolume(crate::filesystem::Handle(1)), cluster: ClusterId::ROOT_DIR }
+}
+
+/// find_directory_entry over a fully symbolic 16-slot FAT16 root: Ok exactly
+/// when the spec reader finds the name before the end marker, and then the
+/// first such slot with the fields stored on disk.
+#[kani::proof]
+#[kani::unwind(18)]
+fn c06_find_root16() {
+    let mut blocks: [Block; G16A_N] = zero_blocks();
+    blocks[G16A_ROOT as usize] = any_block();
+    let root = blocks[G16A_ROOT as usize].clone();
+    let vol = g16a();
+    let mut cache = BlockCache::new(SymDisk::new(0, blocks));
+    let name: [u8; 11] = kani::any();
+    kani::assume(name[0] != 0x00);
+    let r = vol.find_directory_entry(&mut cache, &root16_dirinfo(), &ShortFileName { contents: name });
+    let want = spec_find(&[&root], &name);
+    match (&r, want) {
+        (Ok(e), Some((_, s))) => {
+            assert!(slot_matches_entry(&root.contents, s, e, false), "dir.lookup: entry returned is not the first matching slot / fields differ from disk");
+            assert!(e.entry_block.0 == G16A_ROOT, "dir.lookup: entry_block");
+        }
+        (Err(Error::NotFound), None) => {}
+        (Ok(_), None) => assert!(false, "dir.lookup: found a name that is not in the directory (or lies past the end marker)"),
+        (Err(_), Some(_)) => assert!(false, "dir.lookup: a name present in the directory was not found"),
+        (Err(_), None) => assert!(false, "dir.lookup: wrong error for a missing name"),
+    }
+    assert!(vk_bd::dev(&cache).nwrites.get() == 0, "dir.lookup: wrote to the device");
+    kani::cover!(matches!(want, Some((_, 15))));
+    kani::cover!(want.is_none() && root.contents[0] != 0);
+    kani::cover!(matches!(want, Some((_, s)) if s > 2) && root.contents[32] == 0xE5);
+}
+
+/// iterate_dir over a fully symbolic 16-slot FAT16 root: every live slot
+/// exactly once, in on-disk order, with the stored fields; no deleted slot,
+/// nothing after the end marker.
+#[kani::proof]
+#[kani::unwind(18)]
+fn c06_iterate_root16() {
+    let mut blocks: [Block; G16A_N] = zero_blocks();
+    blocks[G16A_ROOT as usize] = any_block();
+    let root = blocks[G16A_ROOT as usize].clone();
+    let vol = g16a();
+    let mut cache = BlockCache::new(SymDisk::new(0, blocks));
+    let k: usize = kani::any();
+    kani::assume(k < 16);
+    let mut n = 0usize;
+    let mut kth: Option<DirEntry> = None;
+    let r = vol.iterate_dir(&mut cache, &root16_dirinfo(), |de| {
+        if n == k {
+            kth = Some(de.clone());
+        }
+        n += 1;
+    });
+    assert!(r.is_ok(), "dir.list: listing failed without a device error");
+    let (want_n, want_k) = spec_kth_live(&[&root], k);
+    assert!(n == want_n, "dir.list: number of entries reported != number of live slots before the end marker");
+    match (kth, want_k) {
+        (Some(e), Some((_, s))) => {
+            assert!(slot_matches_entry(&root.contents, s, &e, false), "dir.list: k-th reported entry is not the k-th live slot / fields differ from disk");
+            assert!(e.entry_block.0 == G16A_ROOT, "dir.list: entry_block");
+        }
+        (None, None) => {}
+        _ => assert!(false, "dir.list: order / count mismatch"),
+    }
+    kani::cover!(want_n == 16);
+    kani::cover!(want_n == 3 && root.contents[0] == 0xE5 && k == 2);
+    kani::cover!(want_n == 0);
+}
+
+/// FAT32 root directory spanning two clusters (chain 2 -> 4 -> end, concrete
+/// FAT, directory contents symbolic): listing and lookup continue into the
+/// second cluster and stop at the end of the chain.
+fn fat32_two_cluster_dir() -> ([Block; G32A_N], Block, Block) {
+    let mut blocks: [Block; G32A_N] = zero_blocks();
+    {
+        let f = &mut blocks[G32A_FAT1 as usize].contents;
+        put32(f, 0, 0x0FFF_FFF8);
+        put32(f, 4, 0x0FFF_FFFF);
+        put32(f, 8, 4); // 2 -> 4
+        put32(f, 12, 0x0FFF_FFFF); // 3: someone else's
+        put32(f, 16, 0x0FFF_FFFF); // 4: end
+        put32(f, 20, 0);
+    }
+    blocks[G32A_FAT2 as usize] = blocks[G32A_FAT1 as usize].clone();
+    blocks[G32A_DATA as usize] = any_block(); // cluster 2
+    blocks[(G32A_DATA + 2) as usize] = any_block(); // cluster 4
+    blocks[(G32A_DATA + 1) as usize] = any_block(); // cluster 3 (not part of the directory)
+    let a = blocks[G32A_DATA as usize].clone();
+    let b = blocks[(G32A_DATA + 2) as usize].clone();
+    (blocks, a, b)
+}
+
+#[kani::proof]
+#[kani::unwind(18)]
+fn c06_find_root32_two_clusters() {
+    let (blocks, a, b) = fat32_two_cluster_dir();
+    let vol = g32a();
+    let mut cache = BlockCache::new(SymDisk::new(0, blocks));
+    let name: [u8; 11] = kani::any();
+    kani::assume(name[0] != 0x00);
+    let r = vol.find_directory_entry(&mut cache, &root16_dirinfo(), &ShortFileName { contents: name });
+    // per-block end marker semantics of the library: the end marker ends the *block* scan; spec: ends the directory
+    let want = spec_find(&[&a, &b], &name);
+    match (&r, want) {
+        (Ok(e), Some((bi, s))) => {
+            let blk = if bi == 0 { &a } else { &b };
+            assert!(slot_matches_entry(&blk.contents, s, e, true), "dir.lookup: entry returned is not the first matching slot / fields differ from disk");
+            assert!(e.entry_block.0 == if bi == 0 { G32A_DATA } else { G32A_DATA + 2 }, "dir.lookup: entry_block does not follow the cluster chain");
+        }
+        (Err(Error::NotFound), None) => {}
+        (Ok(_), None) => assert!(false, "dir.lookup: found a name that is not in the directory (or lies past the end marker)"),
+        (Err(_), Some(_)) => assert!(false, "dir.lookup: a name present in the directory was not found"),
+        (Err(_), None) => assert!(false, "dir.lookup: wrong error for a missing name"),
+    }
+    kani::cover!(matches!(want, Some((1, 15))));
+    kani::cover!(matches!(want, Some((0, 0))));
+    kani::cover!(want.is_none());
+}
+
+#[kani::proof]
+#[kani::unwind(18)]
+fn c06_iterate_root32_two_clusters() {
+    let (blocks, a, b) = fat32_two_cluster_dir();
+    let vol = g32a();
+    let mut cache = BlockCache::new(SymDisk::new(0, blocks));
+    let k: usize = kani::any();
+    kani::assume(k < 32);
+    let mut n = 0usize;
+    let mut kth: Option<DirEntry> = None;
+    let r = vol.iterate_dir(&mut cache, &root16_dirinfo(), |de| {
+        if n == k {
+            kth = Some(de.clone());
+        }
+        n += 1;
+    });
+    assert!(r.is_ok(), "dir.list: listing failed without a device error");
+    let (want_n, want_k) = spec_kth_live(&[&a, &b], k);
+    assert!(n == want_n, "dir.list: number of entries reported != number of live slots before the end marker");
+    match (kth, want_k) {
+        (Some(e), Some((bi, s))) => {
+            let blk = if bi == 0 { &a } else { &b };
+            assert!(slot_matches_entry(&blk.contents, s, &e, true), "dir.list: k-th reported entry is not the k-th live slot / fields differ from disk");
+        }
+        (None, None) => {}
+        _ => assert!(false, "dir.list: order / count mismatch"),
+    }
+    kani::cover!(want_n == 32);
+    kani::cover!(want_n == 17 && k == 16);
+}
+
+/// FAT16 sub-directory spanning two clusters (3 -> 5 -> end).
+#[kani::proof]
+#[kani::unwind(18)]
+fn c06_find_subdir16_two_clusters() {
+    let mut blocks: [Block; G16A_N] = zero_blocks();
+    {
+        let f = &mut blocks[G16A_FAT as usize].contents;
+        put16(f, 0, 0xFFF8);
+        put16(f, 2, 0xFFFF);
+        put16(f, 4, 0xFFFF); // 2: a file
+        put16(f, 6, 5); // 3 -> 5
+        put16(f, 8, 0); // 4 free
+        put16(f, 10, 0xFFFF); // 5 end
+    }
+    blocks[(G16A_DATA + 1) as usize] = any_block(); // cluster 3
+    blocks[(G16A_DATA + 3) as usize] = any_block(); // cluster 5
+    blocks[(G16A_DATA + 2) as usize] = any_block(); // cluster 4: stale contents, not part of the directory
+    let a = blocks[(G16A_DATA + 1) as usize].clone();
+    let b = blocks[(G16A_DATA + 3) as usize].clone();
+    let vol = g16a();
+    let mut cache = BlockCache::new(SymDisk::new(0, blocks));
+    let name: [u8; 11] = kani::any();
+    kani::assume(name[0] != 0x00);
+    let di = DirectoryInfo { raw_directory: crate::filesystem::RawDirectory(crate::filesystem::Handle(7)), raw_volume: crate::RawVolume(crate::filesystem::Handle(1)), cluster: ClusterId(3) };
+    let r = vol.find_directory_entry(&mut cache, &di, &ShortFileName { contents: name });
+    let want = spec_find(&[&a, &b], &name);
+    match (&r, want) {
+        (Ok(e), Some((bi, s))) => {
+            let blk = if bi == 0 { &a } else { &b };
+            assert!(slot_matches_entry(&blk.contents, s, e, false), "dir.lookup: entry returned is not the first matching slot / fields differ from disk");
+            assert!(e.entry_block.0 == if bi == 0 { G16A_DATA + 1 } else { G16A_DATA + 3 }, "dir.lookup: entry_block does not follow the cluster chain");
+        }
+        (Err(Error::NotFound), None) => {}
+        (Ok(_), None) => assert!(false, "dir.lookup: found a name that is not in the directory (or lies past the end marker)"),
+        (Err(_), Some(_)) => assert!(false, "dir.lookup: a name present in the directory was not found"),
+        (Err(_), None) => assert!(false, "dir.lookup: wrong error for a missing name"),
+    }
+    kani::cover!(matches!(want, Some((1, 3))));
+    kani::cover!(want.is_none());
+}
+
+// ===================================================== directory mutation ===
+
+fn spec_time(ts: &crate::filesystem::Timestamp) -> u16 {
+    ((ts.hours as u16) << 11) | ((ts.minutes as u16) << 5) | (ts.seconds as u16 / 2)
+}
+fn spec_date(ts: &crate::filesystem::Timestamp) -> u16 {
+    ((ts.year_since_1970 as u16 - 10) << 9) | ((ts.zero_indexed_month as u16 + 1) << 5) | (ts.zero_indexed_day as u16 + 1)
+}
+/// byte `i` (0..32) of the FAT directory slot for the given fields (FAT spec layout)
+fn spec_slot_byte(i: usize, name: &[u8; 11], attr: u8, cluster: u32, size: u32, ctime: &crate::filesystem::Timestamp, mtime: &crate::filesystem::Timestamp, fat32: bool) -> u8 {
+    let w = |v: u16, hi: bool| if hi { (v >> 8) as u8 } else { v as u8 };
+    match i {
+        0..=10 => name[i],
+        11 => attr,
+        12 | 13 => 0,
+        14 | 15 => w(spec_time(ctime), i == 15),
+        16 | 17 => w(spec_date(ctime), i == 17),
+        18 | 19 => 0,
+        20 | 21 => {
+            if fat32 {
+                w((cluster >> 16) as u16, i == 21)
+            } else {
+                0
+            }
+        }
+        22 | 23 => w(spec_time(mtime), i == 23),
+        24 | 25 => w(spec_date(mtime), i == 25),
+        26 | 27 => w(cluster as u16, i == 27),
+        _ => (size >> (8 * (i - 28))) as u8,
+    }
+}
+
+/// write_new_directory_entry into a fully symbolic FAT16 root: the first free
+/// slot (0x00 or 0xE5) receives exactly the new entry, every other byte of the
+/// directory is preserved, only the root block is written; a full root gives
+/// NotEnoughSpace and writes nothing (in particular nothing past the root region).
+#[kani::proof]
+#[kani::unwind(34)]
+fn c03_new_entry_root16() {
+    let mut blocks: [Block; G16A_N] = zero_blocks();
+    blocks[G16A_ROOT as usize] = any_block();
+    blocks[G16A_DATA as usize] = any_block(); // first data cluster: must never be touched
+    let root = blocks[G16A_ROOT as usize].clone();
+    let mut vol = g16a();
+    let mut cache = BlockCache::new(SymDisk::new(0, blocks));
+    let name: [u8; 11] = kani::any();
+    let attr: u8 = kani::any();
+    let now = any_timestamp();
+    let r = vol.write_new_directory_entry(&mut cache, &Clock(now), ClusterId::ROOT_DIR, ShortFileName { contents: name }, Attributes::create_from_fat(attr));
+    // spec: first slot with first byte 0x00 or 0xE5
+    let mut t = 16usize;
+    let mut s = 16usize;
+    while s > 0 {
+        s -= 1;
+        let f = root.contents[32 * s];
+        if f == 0x00 || f == 0xE5 {
+            t = s;
+        }
+    }
+    let dev = vk_bd::dev(&cache);
+    let post = dev.block(G16A_ROOT);
+    match &r {
+        Ok(e) => {
+            assert!(t < 16, "dir.create: succeeded although the directory has no free slot");
+            assert!(e.entry_block.0 == G16A_ROOT && e.entry_offset == 32 * t as u32, "dir.create: entry not placed in the first free slot");
+            assert!(e.cluster.0 == 0 && e.size == 0 && e.name.contents == name && e.attributes.0 == attr, "dir.create: returned entry fields");
+            // every byte of the block, at concrete positions
+            let mut s = 0;
+            while s < 16 {
+                let mut i = 0;
+                while i < 32 {
+                    let p = 32 * s + i;
+                    if s == t {
+                        assert!(post.contents[p] == spec_slot_byte(i, &name, attr, 0, 0, &now, &now, false), "dir.create: slot bytes != FAT layout of the new entry (name, attributes, cluster 0, size 0, ctime = mtime = now)");
+                    } else {
+                        assert!(post.contents[p] == root.contents[p], "dir.frame: creating an entry changed a byte outside its slot");
+                    }
+                    i += 1;
+                }
+                s += 1;
+            }
+            assert!(dev.nwrites.get() == 1 && dev.wrote(G16A_ROOT), "write.region: creating an entry wrote something other than the directory block");
+        }
+        Err(e) => {
+            assert!(t == 16, "dir.create: failed although a free slot exists");
+            assert!(matches!(e, Error::NotEnoughSpace), "dir.create: wrong error for a full fixed-size root");
+            assert!(dev.nwrites.get() == 0, "write.region: failed create wrote to the device");
+        }
+    }
+    kani::cover!(t == 15 && root.contents[32 * 15] == 0xE5);
+    kani::cover!(t == 16);
+    kani::cover!(t == 0 && root.contents[0] == 0x00);
+}
+
+/// delete_directory_entry: the first slot matching the name before the end
+/// marker gets the deleted mark, nothing else changes.
+#[kani::proof]
+#[kani::unwind(18)]
+fn c03_delete_entry_root16() {
+    let mut blocks: [Block; G16A_N] = zero_blocks();
+    blocks[G16A_ROOT as usize] = any_block();
+    let root = blocks[G16A_ROOT as usize].clone();
+    let vol = g16a();
+    let mut cache = BlockCache::new(SymDisk::new(0, blocks));
+    let name: [u8; 11] = kani::any();
+    kani::assume(name[0] != 0x00);
+    let r = vol.delete_directory_entry(&mut cache, &root16_dirinfo(), &ShortFileName { contents: name });
+    let want = spec_find(&[&root], &name);
+    let dev = vk_bd::dev(&cache);
+    let post = dev.block(G16A_ROOT);
+    let p: usize = kani::any();
+    kani::assume(p < 512);
+    match (&r, want) {
+        (Ok(()), Some((_, s))) => {
+            if p == 32 * s {
+                assert!(post.contents[p] == 0xE5, "dir.delete: slot not marked deleted");
+            } else {
+                assert!(post.contents[p] == root.contents[p], "dir.frame: deleting an entry changed a byte other than the slot's first");
+            }
+            assert!(dev.nwrites.get() == 1 && dev.wrote(G16A_ROOT), "write.region: delete wrote something other than the directory block");
+        }
+        (Err(Error::NotFound), None) => assert!(dev.nwrites.get() == 0, "dir.delete: NotFound but the device was written"),
+        _ => assert!(false, "dir.delete: result does not match the directory contents"),
+    }
+    kani::cover!(matches!(want, Some((_, 15))));
+    kani::cover!(want.is_none());
+}
+
+/// write_entry_to_disk (what flush/close uses): the owned slot holds exactly
+/// the entry's FAT layout, every other byte of the block is preserved.
+fn write_entry(fat32: bool, slot: usize) {
+    let mut blocks: [Block; G16A_N] = zero_blocks();
+    blocks[G16A_ROOT as usize] = any_block();
+    let root = blocks[G16A_ROOT as usize].clone();
+    let mut vol = g16a();
+    if fat32 {
+        vol.fat_specific_info = FatSpecificInfo::Fat32(Fat32Info { first_root_dir_cluster: ClusterId(2), info_location: BlockIdx(1) });
+    }
+    let mut cache = BlockCache::new(SymDisk::new(0, blocks));
+    let name: [u8; 11] = kani::any();
+    let attr: u8 = kani::any();
+    let cluster: u32 = kani::any();
+    kani::assume(cluster <= if fat32 { 0x0FFF_FFFF } else { 0xFFFF });
+    let size: u32 = kani::any();
+    let (ct, mt) = (any_timestamp(), any_timestamp());
+    let e = DirEntry { name: ShortFileName { contents: name }, mtime: mt, ctime: ct, attributes: Attributes::create_from_fat(attr), cluster: ClusterId(cluster), size, entry_block: BlockIdx(G16A_ROOT), entry_offset: 32 * slot as u32 };
+    let r = vol.write_entry_to_disk(&mut cache, &e);
+    assert!(r.is_ok(), "dir.update: failed without a device error");
+    let dev = vk_bd::dev(&cache);
+    let post = dev.block(G16A_ROOT);
+    let mut p = 0;
+    while p < 512 {
+        if p / 32 == slot {
+            assert!(post.contents[p] == spec_slot_byte(p % 32, &name, attr, cluster, size, &ct, &mt, fat32), "dir.update: slot bytes != FAT layout of the entry (size, first cluster, attributes, mtime, unchanged ctime)");
+        } else {
+            assert!(post.contents[p] == root.contents[p], "dir.frame: updating an entry changed a byte outside its slot");
+        }
+        p += 1;
+    }
+    assert!(dev.nwrites.get() == 1 && dev.wrote(G16A_ROOT), "write.region: entry update wrote something other than the entry's block");
+    kani::cover!(size == u32::MAX);
+}
+#[kani::proof]
+#[kani::unwind(514)]
+fn c02_write_entry_fat16_s0() {
+    write_entry(false, 0);
+}
+#[kani::proof]
+#[kani::unwind(514)]
+fn c02_write_entry_fat16_s15() {
+    write_entry(false, 15);
+}
+#[kani::proof]
+#[kani::unwind(514)]
+fn c02_write_entry_fat32_s7() {
+    write_entry(true, 7);
+}
+
+// ------------------------------------------------------------ info sector ---
+
+/// update_info_sector (FAT32): writes the in-memory free count / next-free
+/// hint at bytes 488..496 of the info sector, preserves every other byte
+/// (signatures!), writes only that sector; unknown (None) values are left as
+/// found; FAT16 writes nothing.
+#[kani::proof]
+#[kani::unwind(514)]
+fn c16_update_info_sector() {
+    let mut blocks: [Block; G32A_N] = zero_blocks();
+    blocks[G32A_INFO as usize] = any_block();
+    let pre = blocks[G32A_INFO as usize].clone();
+    let mut vol = g32a();
+    vol.free_clusters_count = if kani::any() { Some(kani::any()) } else { None };
+    vol.next_free_cluster = if kani::any() { Some(ClusterId(kani::any())) } else { None };
+    let mut cache = BlockCache::new(SymDisk::new(0, blocks));
+    let r = vol.update_info_sector(&mut cache);
+    assert!(r.is_ok(), "info.update: failed without a device error");
+    let dev = vk_bd::dev(&cache);
+    let post = dev.block(G32A_INFO);
+    match vol.free_clusters_count {
+        Some(n) => assert!(le32(&post.contents, 488) == n, "info.count: stored free-cluster count != in-memory count"),
+        None => assert!(le32(&post.contents, 488) == le32(&pre.contents, 488), "info.count: unknown count must be left as found"),
+    }
+    match vol.next_free_cluster {
+        Some(c) => assert!(le32(&post.contents, 492) == c.0, "info.hint: stored next-free hint != in-memory hint"),
+        None => assert!(le32(&post.contents, 492) == le32(&pre.contents, 492), "info.hint: unknown hint must be left as found"),
+    }
+    let mut p = 0;
+    while p < 512 {
+        if !(p >= 488 && p < 496) {
+            assert!(post.contents[p] == pre.contents[p], "info.frame: info-sector update changed a byte outside the two record fields");
+        }
+        p += 1;
+    }
+    let w = dev.nwrites.get();
+    assert!(w <= 1 && (w == 0 || dev.wrote(G32A_INFO)), "write.region: info update wrote something other than the info sector");
+    if vol.free_clusters_count.is_none() && vol.next_free_cluster.is_none() {
+        assert!(w == 0, "info.update: nothing known, nothing to write");
+    }
+    kani::cover!(w == 1 && vol.free_clusters_count.is_none());
+    kani::cover!(w == 0);
+}
+
+// --------------------------------------------------- truncate_cluster_chain ---
+
+/// truncate_cluster_chain on a concrete chain shape: `chain` lists the file's
+/// clusters in order; the other clusters hold `other`; free count and hint
+/// symbolic.  Afterwards the first cluster ends the chain, every other member
+/// is free, nothing else changed, both FAT copies agree, and the free-cluster
+/// record moved by exactly the number of clusters freed.
+fn truncate32<const L: usize>(chain: [u32; L], other: u32) {
+    let mut blocks: [Block; G32A_N] = zero_blocks();
+    {
+        let f = &mut blocks[G32A_FAT1 as usize].contents;
+        put32(f, 0, 0x0FFF_FFF8);
+        put32(f, 4, 0x0FFF_FFFF);
+        let mut c = 2;
+        while c < 6 {
+            put32(f, 4 * c, other);
+            c += 1;
+        }
+        let mut i = 0;
+        while i < L {
+            let v = if i + 1 < L { chain[i + 1] } else { 0x0FFF_FFFF };
+            put32(f, 4 * chain[i] as usize, v);
+            i += 1;
+        }
+    }
+    blocks[G32A_FAT2 as usize] = blocks[G32A_FAT1 as usize].clone();
+    let pre = blocks[G32A_FAT1 as usize].clone();
+    let mut vol = g32a();
+    let count0: Option<u32> = if kani::any() { Some(kani::any()) } else { None };
+    kani::assume(count0.map_or(true, |n| n <= 0xFFFF_FFF0));
+    vol.free_clusters_count = count0;
+    let hint0: Option<u32> = if kani::any() { Some(kani::any()) } else { None };
+    vol.next_free_cluster = hint0.map(ClusterId);
+    let mut cache = BlockCache::new(SymDisk::new(0, blocks));
+    let r = vol.truncate_cluster_chain(&mut cache, ClusterId(chain[0]));
+    assert!(r.is_ok(), "truncate: failed on a well-formed chain");
+    let dev = vk_bd::dev(&cache);
+    let post = dev.block(G32A_FAT1);
+    let post2 = dev.block(G32A_FAT2);
+    assert!(f32(&post, chain[0]) & 0x0FFF_FFFF >= 0x0FFF_FFF8, "truncate: kept cluster does not end the chain");
+    let mut i = 1;
+    while i < L {
+        assert!(f32(&post, chain[i]) & 0x0FFF_FFFF == 0, "truncate: a cluster of the removed tail is not free");
+        i += 1;
+    }
+    let q: u32 = kani::any();
+    kani::assume(q < 128);
+    let mut in_chain = false;
+    i = 0;
+    while i < L {
+        if chain[i] == q {
+            in_chain = true;
+        }
+        i += 1;
+    }
+    if !in_chain {
+        assert!(f32(&post, q) == f32(&pre, q), "fat.frame: truncate changed a FAT entry outside the chain");
+    }
+    assert!(f32(&post2, q) == f32(&post, q), "fat.copies: second FAT differs from the first after truncate");
+    let freed = L as u32 - 1;
+    match (count0, vol.free_clusters_count) {
+        (Some(a), Some(b)) => assert!(b == a + freed, "info.count: free-cluster count did not grow by the number of clusters freed"),
+        (None, None) => {}
+        _ => assert!(false, "info.count: unknown count must stay unknown"),
+    }
+    if freed > 0 {
+        if let Some(h) = vol.next_free_cluster {
+            assert!(hint0 == Some(h.0) || (h.0 >= 2 && h.0 < 6), "info.hint: next-free hint outside the volume after truncate");
+        }
+    }
+    kani::cover!(count0 == Some(0));
+    kani::cover!(count0.is_none() && hint0.is_none());
+}
+#[kani::proof]
+#[kani::unwind(16)]
+fn c16_truncate32_chain3() {
+    truncate32([3, 5, 2], 0x0FFF_FFFF);
+}
+#[kani::proof]
+#[kani::unwind(16)]
+fn c16_truncate32_chain2() {
+    truncate32([4, 2], 0);
+}
+#[kani::proof]
+#[kani::unwind(16)]
+fn c16_truncate32_chain1() {
+    truncate32([5], 0x0FFF_FFFF);
+}
+#[kani::proof]
+#[kani::unwind(16)]
+fn c16_truncate32_chain4() {
+    truncate32([2, 3, 4, 5], 0);
+}
